@@ -288,19 +288,19 @@ fn admission(w: &World) -> (Vec<Failure>, u64) {
 /// x a line alphabet; reference: row iff >= 1 column non-NULL (DEFAULT counts) and every NOT NULL column non-NULL
 fn admission_generated() -> (Vec<Failure>, u64) {
     let mut out = Vec::new();
-    let lines = ["{\"a\":1,\"b\":2,\"k\":\"z\"}", "{\"a\":1}", "{\"b\":2}", "{\"k\":\"z\"}", "{}", "{\"a\":null,\"b\":2}", "{\"a\":\"x\",\"b\":2}", "{\"a\":1,\"k\":\"z\"}", "{\"b\":2,\"k\":\"z\"}", "not json \"k\":\"z\"", "not json", ""];
-    let kinds = ["a", "b", "k"];
+    let lines = ["{\"a\":1,\"b\":2,\"k\":\"z\"}", "{\"a\":1}", "{\"b\":2}", "{\"k\":\"z\"}", "{}", "{\"a\":null,\"b\":2}", "{\"a\":\"x\",\"b\":2}", "{\"a\":1,\"k\":\"z\"}", "{\"b\":2,\"k\":\"z\"}", "not json \"k\":\"z\"", "not json", "", "flag=on", "flag=", "{\"a\":1} flag="];
+    let kinds = ["a", "b", "k", "f"];
     let mods = ["", " NOT NULL", " DEFAULT"];
     let mut specs: Vec<Vec<(usize, usize)>> = Vec::new();
-    for x in 0..3 {
-        for y in 0..3 {
+    for x in 0..4 {
+        for y in 0..4 {
             if x == y {
                 continue;
             }
             for mx in 0..3 {
                 for my in 0..3 {
                     specs.push(vec![(x, mx), (y, my)]);
-                    for z in 0..3 {
+                    for z in 0..4 {
                         if z != x && z != y {
                             for mz in 0..3 {
                                 specs.push(vec![(x, mx), (y, my), (z, mz)]);
@@ -319,11 +319,15 @@ fn admission_generated() -> (Vec<Failure>, u64) {
             .map(|(k, m)| {
                 let m_text = match (kinds[*k], mods[*m]) {
                     ("k", " DEFAULT") => " DEFAULT 'd'".to_string(),
+                    ("f", " DEFAULT") => " DEFAULT TRUE".to_string(),
                     (_, " DEFAULT") => " DEFAULT 7".to_string(),
                     (_, x) => x.to_string(),
                 };
                 if kinds[*k] == "k" {
                     format!("'\"k\":\"([a-z]+)\"' => k TEXT{}", m_text)
+                } else if kinds[*k] == "f" {
+                    // BOOLEAN: whether the group took part, NULL (or the DEFAULT) when the pattern did not match at all
+                    format!("'flag=(on)?' => f BOOLEAN{}", m_text)
                 } else {
                     format!("{{ .{} }} => {} INT{}", kinds[*k], kinds[*k], m_text)
                 }
@@ -343,8 +347,8 @@ fn admission_generated() -> (Vec<Failure>, u64) {
             let mut any = false;
             let mut all_required = true;
             for (k, m) in spec {
-                let present = if kinds[*k] == "k" { kre.is_match(line) } else { doc.as_ref().and_then(|d| d.get(kinds[*k])).is_some() };
-                let value = if kinds[*k] == "k" { present } else { doc.as_ref().and_then(|d| d.get(kinds[*k])).map(|v| v.is_i64()).unwrap_or(false) };
+                let present = if kinds[*k] == "k" { kre.is_match(line) } else if kinds[*k] == "f" { line.contains("flag=") } else { doc.as_ref().and_then(|d| d.get(kinds[*k])).is_some() };
+                let value = if kinds[*k] == "k" || kinds[*k] == "f" { present } else { doc.as_ref().and_then(|d| d.get(kinds[*k])).map(|v| v.is_i64()).unwrap_or(false) };
                 let non_null = value || (!present && mods[*m] == " DEFAULT");
                 any |= non_null;
                 if mods[*m] == " NOT NULL" && !non_null {
@@ -419,7 +423,7 @@ pub fn run(ctx: &Ctx) -> i32 {
     for f in fs {
         col.fail(f);
     }
-    col.layer("admission rule (generated tables)", n, true, json!({"columns": "2..3 of {JSON .a, JSON .b, inline regex k} in every order", "modifiers": ["", "NOT NULL", "DEFAULT"], "lines": 12}));
+    col.layer("admission rule (generated tables)", n, true, json!({"columns": "2..3 of {JSON .a, JSON .b, inline regex k TEXT, inline regex f BOOLEAN} in every order", "modifiers": ["", "NOT NULL", "DEFAULT"], "lines": 15}));
     finish(
         ctx,
         &col,
